@@ -38,7 +38,7 @@ theorem countdown : ∀ (r : Nat) (m : LX), m.enabled = true → m.on + m.off = 
     (∀ τ, τ < r → evAt m τ = if τ + 1 = m.on ∧ m.off > 0 then [restEvent] else []) ∧
     (∀ τ, evAt m (r + τ) = evAt (fetchNow m (m.t + r + 1)) τ) ∧
     (∀ τ, lxAfter (r + τ + 1) m = lxAfter (τ + 1) (fetchNow m (m.t + r + 1))) ∧
-    (∀ τ, τ ≤ r → (lxAfter τ m).enabled = true)
+    (∀ τ, τ ≤ r → (lxAfter τ m).enabled = true ∧ (lxAfter τ m).lastJump = m.lastJump)
   | 0, m, hen, hr => by
     have hstep : lxTick m = lxTick (fetchNow m (m.t + 0 + 1)) := by
       unfold lxTick fetchNow
@@ -53,7 +53,7 @@ theorem countdown : ∀ (r : Nat) (m : LX), m.enabled = true → m.on + m.off = 
     · rw [Nat.zero_add]; exact evAt_congr _ _ hstep τ
     · rw [Nat.zero_add]; exact lxAfter_congr _ _ hstep τ
     · have : τ = 0 := by omega
-      rw [this]; exact hen
+      rw [this]; exact ⟨hen, rfl⟩
   | r + 1, m, hen, hr => by
     -- one counting tick
     obtain ⟨m1, hm1⟩ : ∃ m1, m1 = (lxTick m).1 := ⟨_, rfl⟩
@@ -113,8 +113,8 @@ theorem countdown : ∀ (r : Nat) (m : LX), m.enabled = true → m.on + m.off = 
       rw [this, lxAfter_succ', ← hm1, i3 τ, hfn]
     · intro τ hτ
       cases τ with
-      | zero => exact hen
-      | succ τ => rw [lxAfter_succ', ← hm1]; exact i4 τ (by omega)
+      | zero => exact ⟨hen, rfl⟩
+      | succ τ => rw [lxAfter_succ', ← hm1]; exact ⟨(i4 τ (by omega)).1, (i4 τ (by omega)).2.trans e4.2.2.2⟩
 
 theorem totalDur_cons (i : Item) (is : List Item) : totalDur (i :: is) = i.dur + totalDur is := by
   simp [totalDur]
@@ -171,11 +171,11 @@ theorem tick_dur (m : LX) (i : Item) (is : List Item) (hen : m.enabled = true) (
 theorem deliver : ∀ (items : List Item) (m : LX), m.enabled = true → m.on = 0 → m.off = 0 → m.rest = items →
     (∀ pre i post, items = pre ++ i :: post → i.ev ∈ evAt m (totalDur pre)) ∧
     (∀ pre i post, items = pre ++ i :: post → i.src.on > 0 → i.src.off > 0 → restEvent ∈ evAt m (totalDur pre + i.src.on)) ∧
-    (∀ τ, τ ≤ totalDur items → (lxAfter τ m).enabled = true)
+    (∀ τ, τ ≤ totalDur items → (lxAfter τ m).enabled = true ∧ (lxAfter τ m).lastJump = m.lastJump)
   | [], m, hen, _, _, _ => by
     refine ⟨fun pre i post h => by simp at h, fun pre i post h => by simp at h, fun τ h => ?_⟩
     have : τ = 0 := by simpa [totalDur] using h
-    rw [this]; exact hen
+    rw [this]; exact ⟨hen, rfl⟩
   | i0 :: is, m, hen, hon, hoff, hr => by
     by_cases hz : i0.src.on = 0 ∧ i0.src.off = 0
     · -- a zero-duration item
@@ -216,7 +216,7 @@ theorem deliver : ∀ (items : List Item) (m : LX), m.enabled = true → m.on = 
       · intro τ hτ
         rw [totalDur_cons, hd0, Nat.zero_add] at hτ
         cases τ with
-        | zero => exact hen
+        | zero => exact ⟨hen, rfl⟩
         | succ τ => rw [hafter]; exact ih3 (τ + 1) hτ
     · -- an item with a duration
       have ht := tick_dur m i0 is hen hon hoff hr hz
@@ -263,14 +263,16 @@ theorem deliver : ∀ (items : List Item) (m : LX), m.enabled = true → m.on = 
       · intro τ hτ
         rw [totalDur_cons, hd0] at hτ
         cases τ with
-        | zero => exact hen
+        | zero => exact ⟨hen, rfl⟩
         | succ τ =>
           rw [lxAfter_succ', ht]
           by_cases hle : τ ≤ dd
           · exact c4 τ hle
           · obtain ⟨y, hy⟩ : ∃ y, τ = dd + y + 1 := ⟨τ - dd - 1, by omega⟩
             rw [hy, c3 y]
-            exact ih3 (y + 1) (by omega)
+            have := ih3 (y + 1) (by omega)
+            rw [hm3] at this ⊢
+            exact this
 
 /-- a track without loop point: the machine stops with call number `totalDur items`, which
 delivers `END` last -/
